@@ -26,8 +26,8 @@ RULE = (
     '@import; distinct_nontrivial = distinct (owner, model state, operation, outcome) tuples reached'
 )
 ASSUMPTIONS = ['"handheld" special-casing mentioned in a docstring is not asserted either way', 'feature values outside the documented set are not generated']
-MIN_EVENTS = {'quick': {'oracle.step': 20000, 'oracle.query-construction': 3000, 'oracle.malformed-rejected': 400, 'rejections': 1500},
-              'thorough': {'oracle.step': 600000, 'oracle.query-construction': 80000, 'oracle.malformed-rejected': 10000, 'rejections': 40000}}
+MIN_EVENTS = {'quick': {'oracle.query-assign-bad': 2400, 'mode.log': 7000, 'oracle.step': 20000, 'oracle.query-construction': 3000, 'oracle.malformed-rejected': 400, 'rejections': 1500},
+              'thorough': {'oracle.query-assign-bad': 60000, 'mode.log': 170000, 'oracle.step': 600000, 'oracle.query-construction': 80000, 'oracle.malformed-rejected': 10000, 'rejections': 40000}}
 
 TYPES = G.MEDIA_TYPES
 
@@ -155,7 +155,7 @@ def observe(ctx, cssutils, ml, m, case, step, owner_obj):
     return True
 
 
-def run_history(ctx, cssutils, rng, ops_in=None, owner_in=None, init_in=None):
+def run_history(ctx, cssutils, rng, ops_in=None, owner_in=None, init_in=None, raising_in=None):
     g = G.Gen(rng)
     owner = owner_in or rng.choice(['none', 'none', 'media', 'import'])
     m = Model()
@@ -186,7 +186,9 @@ def run_history(ctx, cssutils, rng, ops_in=None, owner_in=None, init_in=None):
     if owner == 'import' and first_real[1] is None:
         owner = 'media'  # '(' first in an @import media list is a known finding of C02
     ops = []
-    case = {'kind': 'history', 'owner': owner, 'init': [[norm(q), t] for q, t in init], 'ops': ops}
+    # error mode: in log mode a refused edit is reported, not raised, and must leave the list alone all the same
+    raising = raising_in if raising_in is not None else (rng.random() < 0.6)
+    case = {'kind': 'history', 'owner': owner, 'init': [[norm(q), t] for q, t in init], 'ops': ops, 'raising': raising}
     try:
         core.canonical_state(cssutils)
         ml, owner_obj, sheet = make_owner(cssutils, owner, text)
@@ -203,7 +205,7 @@ def run_history(ctx, cssutils, rng, ops_in=None, owner_in=None, init_in=None):
             op = script[step]
             k = op[0]
         else:
-            k = rng.choice(['append', 'append', 'append', 'delete', 'delete', 'delete-absent', 'assign', 'setitem', 'append-bad', 'assign-bad'])
+            k = rng.choice(['append', 'append', 'append', 'delete', 'delete', 'delete-absent', 'assign', 'setitem', 'append-bad', 'assign-bad', 'query-assign-bad', 'query-assign-bad'])
             op = [k]
             if k in ('append', 'setitem'):
                 q, t = rand_query(rng, g)
@@ -224,6 +226,8 @@ def run_history(ctx, cssutils, rng, ops_in=None, owner_in=None, init_in=None):
                 op.append([[norm(q), t] for q, t in qs])
             elif k == 'append-bad':
                 op.append(rng.choice(['3d', 'print and', 'tv (color)', 'x y', '(color', 'print,', 'and (color)', 'nosuchmedium']))
+            elif k == 'query-assign-bad':
+                op += [rng.randrange(4), rng.choice(['screen, print', 'screen foo', 'tv and (color) print', '3d', 'print and', 'tv $', 'tv,', '(color', 'nosuchmedium x'])]
             elif k == 'assign-bad':
                 good = [rand_query(rng, g)[1] for _ in range(rng.randint(1, 2))]
                 bad = rng.choice(['3d', 'print and', 'tv (color)', '(color', 'nosuchmedium', 'tv $'])
@@ -234,26 +238,29 @@ def run_history(ctx, cssutils, rng, ops_in=None, owner_in=None, init_in=None):
         ctx.count('op.' + k)
         feats = []
         try:
-            core.canonical_state(cssutils)
+            core.canonical_state(cssutils, raising=raising)
+            ctx.count('mode.raising' if raising else 'mode.log')
             outcome = 'ok'
             if k == 'append':
                 q = tuple_q(op[1])
                 try:
-                    ml.appendMedium(op[2])
-                    accepted = True
+                    r = ml.appendMedium(op[2])
+                    accepted = True if raising else (r is not False and r is not None)
                 except xml.dom.DOMException:
                     accepted = False
                     ctx.count('rejections')
                 exp_acc = m.append(q)
                 outcome = 'accepted' if accepted else 'rejected'
-                if accepted != exp_acc:
+                # (in log mode the return value only says whether the new medium was wellformed: the state comparison below decides)
+                if raising and accepted != exp_acc:
                     ctx.violation('lockstep.accept-reject', dict(case, failed_at=step), {'op': op, 'accepted': accepted, 'expected_accepted': exp_acc, 'mediaText': ml.mediaText})
                     return
             elif k == 'delete':
                 t = op[1].lower()
+                before_len = ml.length
                 try:
                     ml.deleteMedium(op[1])
-                    accepted = True
+                    accepted = True if raising else ml.length < before_len
                 except xml.dom.DOMException:
                     accepted = False
                     ctx.count('rejections')
@@ -262,10 +269,13 @@ def run_history(ctx, cssutils, rng, ops_in=None, owner_in=None, init_in=None):
                     ctx.violation('lockstep.accept-reject', dict(case, failed_at=step), {'op': op, 'accepted': accepted, 'expected_accepted': exp_acc, 'mediaText': ml.mediaText})
                     return
             elif k == 'delete-absent':
+                before_text = ml.mediaText
                 try:
                     ml.deleteMedium(op[1])
-                    ctx.violation('lockstep.accept-reject', dict(case, failed_at=step), {'op': op, 'accepted': True, 'expected_accepted': False, 'mediaText': ml.mediaText})
-                    return
+                    if raising or ml.mediaText != before_text:
+                        ctx.violation('lockstep.accept-reject', dict(case, failed_at=step), {'op': op, 'accepted': True, 'expected_accepted': False, 'mediaText': ml.mediaText})
+                        return
+                    ctx.count('rejections')
                 except xml.dom.DOMException:
                     ctx.count('rejections')
             elif k == 'assign':
@@ -289,6 +299,30 @@ def run_history(ctx, cssutils, rng, ops_in=None, owner_in=None, init_in=None):
                     # the model cannot say what a non-canonical list should do next: stop this history here
                     observe(ctx, cssutils, ml, m, case, step, owner_obj)
                     return
+            elif k == 'query-assign-bad':
+                if not m.q or with_comment:
+                    ops.pop()
+                    continue
+                ctx.count('oracle.query-assign-bad')
+                qobj = ml[op[1] % len(m.q)]
+                before = ml.mediaText
+                qbefore = qobj.mediaText
+                try:
+                    qobj.mediaText = op[2]
+                    rejected = (qobj.mediaText == qbefore) and not raising
+                except xml.dom.DOMException:
+                    rejected = True
+                    ctx.count('rejections')
+                if not rejected or ml.mediaText != before or qobj.mediaText != qbefore:
+                    ctx.violation('malformed-not-rejected-whole', dict(case, failed_at=step), {'op': op, 'rejected': rejected, 'before': before, 'after': ml.mediaText, 'query_after': qobj.mediaText})
+                    return
+                # nothing of the refused text may reach the next parse
+                core.canonical_state(cssutils)
+                probe = cssutils.stylesheets.MediaList('tv, print and (color)')
+                style = cssutils.parseStyle('color: red; margin: 0 auto')
+                if probe.length != 2 or probe.mediaText != 'tv, print and (color)' or style.cssText != 'color: red;\nmargin: 0 auto':
+                    ctx.violation('malformed-leaks-into-next-parse', dict(case, failed_at=step), {'op': op, 'next_list': probe.mediaText, 'next_style': style.cssText})
+                    return
             elif k in ('append-bad', 'assign-bad'):
                 ctx.count('oracle.malformed-rejected')
                 before = ml.mediaText
@@ -298,7 +332,7 @@ def run_history(ctx, cssutils, rng, ops_in=None, owner_in=None, init_in=None):
                     else:
                         ml.mediaText = op[1]
                         r = None
-                    rejected = r is False
+                    rejected = (r is False) or (not raising and ml.mediaText == before)
                 except xml.dom.DOMException:
                     rejected = True
                     ctx.count('rejections')
@@ -383,7 +417,7 @@ def replay(ctx, case):
 
     if case.get('kind') == 'history':
         init = [(tuple_q(q) if q[2] != 'comment' else (None, None, 'comment'), t) for q, t in case['init']]
-        run_history(ctx, cssutils, random.Random(0), ops_in=[list(o) for o in case['ops']], owner_in=case['owner'], init_in=init)
+        run_history(ctx, cssutils, random.Random(0), ops_in=[list(o) for o in case['ops']], owner_in=case['owner'], init_in=init, raising_in=case.get('raising', True))
     elif case.get('kind') == 'query':
         mq = cssutils.stylesheets.MediaQuery(case['text'])
         t1 = mq.mediaText
